@@ -392,7 +392,63 @@ def rule_rekey10(run):
     rule_rekey(run, mods=MODS, anchors=['mulgrids.mulgrid.rename_column', 'mulgrids.mulgrid.rename_layer'])
 
 
+def rule_laycount(run):
+    run.rule('LAYCOUNT', 'a column\'s layer count is a recount from its surface (set_column_num_layers / set_default_surface): a function that '
+             'rebuilds the layers of a geometry recounts its columns afterwards, and the only arithmetic updates of num_layers are the '
+             '"-1" that goes with moving the surface to the bottom of its top layer', floor=2)
+    prog = run.prog
+    cls = prog.cls('mulgrids', 'mulgrid')
+    RECOUNT = ('set_column_num_layers', 'set_default_surface')
+    for fi in sorted(list(cls.methods.values()) + list(prog.mod('mulgrids').functions.values()), key=lambda f: f.qual):
+        if fi.name in ('add_layers', 'clear_layers'): continue
+        body = list(walk_no_nested(fi.node))
+        rebuilds = [c for c in body if isinstance(c, ast.Call) and call_name(c) in ('add_layers', 'clear_layers') and isinstance(c.func, ast.Attribute)]
+        if rebuilds:
+            key = '%s :: columns recounted after the layers are rebuilt' % fi.short
+            last = max(c.lineno for c in rebuilds)
+            rc = [c for c in body if isinstance(c, ast.Call) and call_name(c) in RECOUNT and c.lineno > last]
+            # recount of *all* columns: set_default_surface, or set_column_num_layers inside a loop over a column list
+            from ..core import parent_map
+            pm = parent_map(fi.node)
+            def in_column_loop(c):
+                cur = c
+                while cur in pm:
+                    cur = pm[cur]
+                    if isinstance(cur, ast.For) and 'column' in norm(cur.iter): return True
+                return False
+            full = [c for c in rc if call_name(c) == 'set_default_surface' or in_column_loop(c)]
+            if full: run.ok(key, norm(full[0]), where=fi.where(full[0]))
+            else:
+                run.violated(key, 'the layers are rebuilt (%s) but the columns are not recounted with set_column_num_layers afterwards: a column '
+                             'whose surface lies inside the changed layers keeps a layer count that no longer matches its surface'
+                             % norm(rebuilds[-1]), where=fi.where(rebuilds[-1]))
+        for n in body:
+            if isinstance(n, ast.AugAssign) and isinstance(n.target, ast.Attribute) and n.target.attr == 'num_layers' and fi.name != 'set_column_num_layers':
+                key = '%s :: arithmetic update of %s' % (fi.short, norm(n.target))
+                rcv = norm(n.target.value)
+                blk = [b for b in _blocks_of(fi.node) if n in b]
+                sib = blk[0] if blk else []
+                ok = isinstance(n.op, ast.Sub) and norm(n.value) == '1' and any(
+                    isinstance(s_, ast.Assign) and any(isinstance(t, ast.Attribute) and t.attr == 'surface' and norm(t.value) == rcv for t in s_.targets)
+                    and isinstance(s_.value, ast.Attribute) and s_.value.attr == 'bottom' for s_ in sib)
+                if ok: run.ok(key, 'goes with moving the surface to the bottom of its layer', where=fi.where(n))
+                else:
+                    run.violated(key, '`%s` adjusts the layer count by arithmetic instead of recounting it from the surface: for a column whose surface '
+                                 'lies inside the affected layers the count ends up wrong (column_surface_layer then points above ground and '
+                                 'num_layers disagrees with the block name list)' % norm(n), where=fi.where(n))
+
+
+def _blocks_of(fnode):
+    out = []
+    for n in ast.walk(fnode):
+        for f in ('body', 'orelse', 'finalbody'):
+            b = getattr(n, f, None)
+            if isinstance(b, list) and b and isinstance(b[0], ast.stmt): out.append(b)
+    return out
+
+
 def check(run):
+    run.guarded('LAYCOUNT', rule_laycount)
     from .pred_common import rule_pred
     run.guarded('PRED', lambda r: rule_pred(r, floor=1, only=('mulgrid.set_column_num_layers',)))
     run.guarded('PAIR', rule_pair)
